@@ -79,8 +79,21 @@ let () =
          the projected gi is the proved reference, computed at level 1 *)
       let gmodel = out (fun z -> string_of_int (int_of_z z)) (girth_go g) in
       if level >= 1 && gmodel <> string_of_int (int_of_z (zgirth g)) then Buffer.add_string buf " girthmodel!=ref";
+      (* above the size where the references are affordable the model of BiconnectedComponents is
+         still run: it must not panic or run out of fuel *)
+      if level < 1 then (match biconnected_components_go g with Done _ -> () | _ -> Buffer.add_string buf " bcmodel-panic");
       if level >= 1 then begin
-        let blocks = List.sort compare (List.map (List.map int_of_nat) (blocks_ref g)) in
+        let blocks_r = List.sort compare (List.map (List.map int_of_nat) (blocks_ref g)) in
+        (* the model of BiconnectedComponents (Invariants/BlockModel.v, proved equal to the
+           references in Props/C10_blocks.v): bl / ar of the line are the model's values (blocks
+           as a sorted list of sorted lists, articulation vertices sorted); they must equal the
+           reference's ("bcmodel!=ref" otherwise, never seen) *)
+        let (blocks, arts) = match biconnected_components_go g with
+          | Done (bl, ar) ->
+            (List.sort compare (List.map (List.map int_of_nat) bl), List.sort compare (List.map int_of_nat ar))
+          | _ -> Buffer.add_string buf " bcmodel-panic"; ([], []) in
+        if blocks <> blocks_r || arts <> List.map int_of_nat (artic_ref g) then
+          Buffer.add_string buf (Printf.sprintf " bcmodel!=ref(bl=%s ar=%s)" (lists blocks_r) (nats "." (artic_ref g)));
         let bounds = List.init (n + 5) (fun k -> z_of_int (k - 2)) in
         (* the model of NumberOfInducedPaths (proved equal to the reference): run for every bound
            when n <= 6 and for the bounds -1, 0, 3 when n = 7 *)
@@ -90,7 +103,7 @@ let () =
               | Done l -> if nats "." l <> nats "." (ipaths_bounded_ref g k) then Buffer.add_string buf " ipmodel!=ref"
               | _ -> Buffer.add_string buf " ipmodel-panic") bounds;
         Buffer.add_string buf (Printf.sprintf " gi=%d bl=%s ar=%s cy=%s ic=%s ip=%s icb=%s ipb=%s"
-          (int_of_z (zgirth g)) (lists blocks) (nats "." (artic_ref g))
+          (int_of_z (zgirth g)) (lists blocks) (ints "." arts)
           (nats "." (cycles_ref g)) (nats "." (icycles_ref g)) (nats "." (ipaths_ref g))
           (String.concat "/" (List.map (fun k -> nats "." (icycles_bounded_ref g k)) bounds))
           (String.concat "/" (List.map (fun k -> nats "." (ipaths_bounded_ref g k)) bounds)))
